@@ -198,7 +198,15 @@ fn run_program<'a>(
                         r
                     }
                     ("end_row", WS::R(mut rw)) => {
-                        let r = rw.end_row();
+                        // "times": the call repeated (one event for all; stops at the first refusal)
+                        let times = op["times"].as_u64().unwrap_or(1);
+                        let mut r = Ok(());
+                        for _ in 0..times {
+                            r = rw.end_row();
+                            if r.is_err() {
+                                break;
+                            }
+                        }
                         *nextref = WS::R(rw);
                         r
                     }
